@@ -12,6 +12,8 @@ THEOREMS = [
     "HgVerif.PushQueue.nothing_accepted_after_stop", "HgVerif.PushQueue.send_after_stop_refused",
     "HgVerif.PushQueue.no_lost_wakeup",
     "HgVerif.PushQueue.blocking_fails_only_if_stopped", "HgVerif.PushQueue.blocked_sender_released",
+    "HgVerif.PushQueue.progress", "HgVerif.PushQueue.eventually_delivered",
+    "HgVerif.PushQueue.conflating_delivers_latest",
 ]
 CXX_TARGETS = ["hgv_push"]
 RULE = ("schedules of whole operations (start, try_send / send_blocking from producers 1-3, evaluation cycles, "
